@@ -15,21 +15,21 @@ PROPS = {
         "assumptions": ["NoopNormalizer (identity) is the normalizer"],
     },
     "C02": {
-        "suites": [("build", 1500, 40000)],
+        "suites": [("build", 1500, 12000)],
         "proved_scope": "character level, every input: parse_content decodes every well-spelled piece list (literal chars, the five predefined entities, decimal/hex references with case and leading zeros, CR/CRLF, attribute-value normalisation) to the value it denotes (C02_content); normalize_xml_id = strip+collapse when at most one space stands at either end (C02_xmlid_partial). Proved negations with closed witnesses: C02_xmlid_false, C02_cdata_line_ends_false, C02_namespace_uri_false, C02_local_xmlns_false, C02_empty_cdata_false",
         "not_proved": "C02_merge / C02_scope / C02_spelled / C02_fragment (builder level: name resolution = XML-Namespaces scoping, text+CDATA merging, fragment = content of wrapped parse) are not proved; they are covered by the build suite's renderer oracle and by the model/implementation correspondence. Lexical layer (quotes, in-tag white space, XML declaration, BOM, byte encodings) is external (xmlparser, xhtmlchardet, encoding_rs): renderer oracle only",
         "modelled": EXTERNAL,
         "assumptions": ["the token list is what xmlparser 0.13.6 returns (the build suite feeds the model the real tokenizer's tokens)"],
     },
     "C03": {
-        "suites": [("build", 1500, 40000)],
+        "suites": [("build", 1500, 12000)],
         "proved_scope": "every token list: accepted => document node at the root only, children ordered namespaces/attributes/normal, attribute and namespace nodes only under elements, leaves are leaves, no adjacent text nodes (C03_sound), and for parse exactly one element and no text at top level (C03_sound_document); no panic under the token-shape contract when no end tag occurs at depth 0 (C03_nopanic_partial, C03_bytes_nopanic_partial); rejections the code enforces (C03_reject_*: sticky first error, tokenizer error, DTD tokens, version, mismatched end tag, unknown prefix, attribute repeated as written, references that do not decode / are not terminated anywhere after well-spelled content, duplicate xml:id, unclosed element). Proved negations with closed witnesses: C03_nopanic_false, C03_bytes_nopanic_false, C03_sound_unique_false, C03_reject_duplicate_expanded_false, C03_reject_prefix_twice_false, C03_reject_nonchar_false, C03_reject_signed_false, C03_reject_truncated_false",
         "not_proved": "Representable (accepted tree re-serialises and reparses deep-equal) is not proved: oracle only. Uniqueness of attribute names / prefixes per element is FALSE for the code (negation proved). Tokenizer-level rejections (raw '<' / '&', malformed comments / PIs / CDATA) belong to xmlparser: fault catalogue in the build suite only. Termination/totality of the real code: by the model being total plus correspondence",
         "modelled": EXTERNAL,
         "assumptions": ["TokenShape (DESIGN.md section 6): spans inside the input, prefix/local abut the colon, attributes and '>' '/>' only inside a start tag", "NoStrayClose: the tokenizer emits no end tag at depth 0 (true in document mode, false in fragment mode)"],
     },
     "C17": {
-        "suites": [("build", 1500, 40000)],
+        "suites": [("build", 1500, 12000)],
         "proved_scope": "every token list under the token-shape contract: every ParseError span and every recorded span has both end points in [0, len] (C17_errors, C17_inside); parse_content error positions lie in [base, base + len(content)] (C17_errors_content); which token span is stored under each SpanInfoKey (C17_span_element_start/_element_end/_attribute/_text_first/_text_next/_comment/_pi); element and text children of the document node have their spans (C17_total_top)",
         "not_proved": "start <= end and char-boundary alignment of spans (needs the tokens to be in source order: tokenizer contract, checked by the suite oracle); spans present for nodes below the top level (C17_total); decoding the slice gives the node value at tree level (character level is C02_content); that token spans slice to the spelling (tokenizer): renderer oracle with tracked offsets",
         "modelled": EXTERNAL,
